@@ -79,7 +79,7 @@ def twins(acc, n, seed):
     operations whose results C05 speaks of): ~=V.N is >=V.N,==V.* (PEP 440), ==V is >=V,<=V, and !=V, <V, <=V,
     !=X.* are the complements of ==V, >=V, >V, ==X.*."""
     mod = sys.modules[MOD]
-    strat = st.fixed_dictionaries({"v": versions.spelled_version(min_len=2), "x": versions.spelled_version(suffix=False, max_len=3)})
+    strat = st.fixed_dictionaries({"v": versions.spelled_version(min_len=2), "x": versions.spelled_version(suffix=False, max_len=5)})
     harness.run_hypothesis(acc, strat, lambda c: harness.process(mod, acc, "twin", c, "L3-twin-spellings"), n, seed)
 
 
@@ -87,6 +87,9 @@ def _twin_pairs(case):
     v, x = case["v"], case["x"]
     V = Version(v)
     out = [("eq", f"=={v}", f">={v},<={v}", False), ("ne", f"!={v}", f"=={v}", True), ("lt", f"<{v}", f">={v}", True), ("le", f"<={v}", f">{v}", True), ("ne-wild", f"!={x}.*", f"=={x}.*", True)]
+    X = Version(x)
+    bumped = (f"{X.epoch}!" if X.epoch else "") + ".".join(map(str, [*X.release[:-1], X.release[-1] + 1]))
+    out.append(("wild-range", f"=={x}.*", f">={x},<{bumped}", False))  # ==X.* is the half-open range [X, X+1)
     if not (V.is_prerelease or V.is_devrelease):
         # below its own base release (a pre- or dev-release) V is outside ==prefix.* in the interval reading
         prefix = (f"{V.epoch}!" if V.epoch else "") + ".".join(map(str, V.release[:-1]))
